@@ -187,6 +187,7 @@ func main() {
 	work := filepath.Join(verif, ".work", fmt.Sprintf("run-%s-%d", prop, os.Getpid()))
 	os.RemoveAll(work)
 	must(os.MkdirAll(filepath.Join(work, "w"), 0o755))
+	_ = os.MkdirAll(filepath.Join(verif, "wcache", prop+"-"+*tier), 0o755)
 	if !*keep {
 		defer os.RemoveAll(work)
 	}
@@ -258,7 +259,10 @@ func main() {
 			args := []string{"-prop", prop, "-tier", *tier, "-unit", u.Name, "-out", outf, "-deadline", fmt.Sprint(perUnit), "-shard", fmt.Sprint(u.shard), "-nshards", fmt.Sprint(u.Shards)}
 			c := exec.Command(ha, args...)
 			c.Dir = work
-			c.Env = env(work, "VERIF_TASK_BIN="+taskBin, "VERIF_SEED="+fmt.Sprint(seed))
+			c.Env = env(work, "VERIF_TASK_BIN="+taskBin, "VERIF_SEED="+fmt.Sprint(seed), "VERIF_WCACHE="+filepath.Join(verif, "wcache", prop+"-"+*tier))
+			if os.Getenv("VERIF_REPO") != "" {
+				c.Env = append(c.Env, "VERIF_WCACHE_RO=1") // runs against another tree never write the cache
+			}
 			if cfg.Race {
 				c.Env = append(c.Env, "GORACE=halt_on_error=0 log_path="+filepath.Join(work, fmt.Sprintf("race-%d", i)), "VERIF_RACE_LOG="+filepath.Join(work, fmt.Sprintf("race-%d", i)))
 			}
